@@ -193,6 +193,25 @@ pub(crate) fn snap<A>(h: NonNull<ChunkHeader<A>>) -> HeaderSnap {
     }
 }
 
+/// compile-time chunk sizes (see `Arena::build`)
+pub(crate) struct Sizes<A, S, const H: usize>(PhantomData<fn() -> (A, S)>);
+
+impl<A, S: BumpAllocatorSettings, const H: usize> Sizes<A, S, H> {
+    pub(crate) const S0: ChunkSize<A, S> = match ChunkSize::<A, S>::from_hint(H) {
+        Some(s) => s,
+        None => panic!("size"),
+    };
+    /// what `append_for` computes for a small request: from_hint(2 * previous chunk size)
+    pub(crate) const S1: ChunkSize<A, S> = match ChunkSize::<A, S>::from_hint(2 * Self::S0.layout().unwrap().size()) {
+        Some(s) => s,
+        None => panic!("size"),
+    };
+    pub(crate) const S2: ChunkSize<A, S> = match ChunkSize::<A, S>::from_hint(2 * Self::S1.layout().unwrap().size()) {
+        Some(s) => s,
+        None => panic!("size"),
+    };
+}
+
 /// An arena of `k` chunks (k <= 3) together with the ghost view of it.
 pub(crate) struct Arena<A, S: BumpAllocatorSettings> {
     pub bump: RawBump<A, S>,
@@ -207,18 +226,34 @@ where
     A: crate::BaseAllocator<S::GuaranteedAllocated> + Default,
     S: BumpAllocatorSettings,
 {
-    /// Build `k` chunks with the real constructors; first chunk from `hint`, later ones by
-    /// `append_for(layout(grow, 1))`.  The result is a fresh arena (every position at its start).
+    /// Build `k` chunks with the real constructor `NonDummyChunk::new`; chunk sizes are what
+    /// `ChunkSize::from_hint(hint), from_hint(2*hint), from_hint(4*hint)` yield (the sizes `append_for`
+    /// produces for small requests), but evaluated at COMPILE time: CBMC treats a dynamic object
+    /// of literal size field-sensitively, whereas a size that went through
+    /// `checked_next_power_of_two` at verification time is symbolic to it and every header access
+    /// becomes an array-theory constraint (measured: 10 M clauses for one list walk).
+    /// The result is a fresh arena (every position at its start); `wf()` is asserted by callers.
     pub(crate) fn build(k: usize, hint: usize) -> Self {
+        match hint {
+            64 => Self::build_c::<64>(k),
+            128 => Self::build_c::<128>(k),
+            256 => Self::build_c::<256>(k),
+            512 => Self::build_c::<512>(k),
+            _ => panic!("unsupported literal hint"),
+        }
+    }
+
+    fn build_c<const H: usize>(k: usize) -> Self {
         log_reset();
-        let size = ChunkSize::<A, S>::from_hint(hint).unwrap();
-        let c0 = NonDummyChunk::<A, S>::new::<AllocError>(size, None, A::default()).unwrap();
+        let c0 = NonDummyChunk::<A, S>::new::<AllocError>(Sizes::<A, S, H>::S0, None, A::default()).unwrap();
         let mut chunks = [Some(c0), None, None];
         if k >= 2 {
-            let c1 = c0.append_for::<AllocError>(Layout::new::<u8>()).unwrap();
+            let c1 = NonDummyChunk::<A, S>::new::<AllocError>(Sizes::<A, S, H>::S1, Some(c0), A::default()).unwrap();
+            unsafe { c0.header().as_ref().next.set(Some(c1.header())) };
             chunks[1] = Some(c1);
             if k >= 3 {
-                let c2 = c1.append_for::<AllocError>(Layout::new::<u8>()).unwrap();
+                let c2 = NonDummyChunk::<A, S>::new::<AllocError>(Sizes::<A, S, H>::S2, Some(c1), A::default()).unwrap();
+                unsafe { c1.header().as_ref().next.set(Some(c2.header())) };
                 chunks[2] = Some(c2);
             }
         }
